@@ -97,9 +97,10 @@ const (
 	opExecVolatile
 	opExecDump
 	opGetOnly
+	opExecRecursive
 )
 
-var opNames = []string{"GetTemplate+Execute", "Parse+Execute", "AddGlobal", "LookupGlobal", "Execute(globals)", "loader.Set", "loader.Delete", "loader.Exists", "loader.Open", "Execute(volatile)", "Execute(dump)", "GetTemplate"}
+var opNames = []string{"GetTemplate+Execute", "Parse+Execute", "AddGlobal", "LookupGlobal", "Execute(globals)", "loader.Set", "loader.Delete", "loader.Exists", "loader.Open", "Execute(volatile)", "Execute(dump)", "GetTemplate", "Execute(recursive include)"}
 
 type op struct {
 	kind  opKind
@@ -179,6 +180,7 @@ func vars(d gen.DataSpec, fp *failPlan) jet.VarMap {
 		a.Runtime().LetGlobal(a.Get(0).String(), a.Get(1).Interface())
 		return reflect.ValueOf("")
 	})
+	vm.Set("dec", func(n int) int { return n - 1 })
 	vm.Set("plain", &plainStrRanger{items: []string{"pa"}})
 	vm.Set("rng", &plainStrRanger{items: []string{"ra", "rb"}})
 	vm.Set("rnd", litRenderer{})
@@ -205,6 +207,15 @@ func (litRenderer) Render(rt *jet.Runtime) { rt.Writer.Write([]byte("(rnd)")) }
 
 const globalsTmpl = "/zglobals.jet"
 const dumpTmpl = "/zdump.jet"
+const recTmpl = "/zrec.jet"
+const recDepth = 60 // two clients at this depth have more than a hundred activations of one include statement in flight
+
+func recExpected(d int) string {
+	if d == 0 {
+		return "[0]"
+	}
+	return fmt.Sprintf("[%d%s]", d, recExpected(d-1))
+}
 
 func RunC11(env *sim.Env) {
 	t := env.Tape
@@ -220,6 +231,7 @@ func RunC11(env *sim.Env) {
 	w := &world{files: gw.Files, stable: gw.Mains, alone: map[string]string{}, parseSrc: map[string]string{}}
 	w.files[globalsTmpl] = `<g0={{isset(g0) ? g0 : "none"}}><g1={{isset(g1) ? g1 : "none"}}><gc={{gc}}>`
 	w.files[dumpTmpl] = `{{x := 1}}{{dump()}}`
+	w.files[recTmpl] = `[{{.}}{{if . > 0}}{{include "/zrec.jet" dec(.)}}{{end}}]`
 	w.files["/v0.jet"] = "[v0#1]"
 	w.files["/v1.jet"] = "[v1#1]{{include \"/v0.jet\"}}"
 	w.datas = []gen.DataSpec{gen.GenData(t, 1), gen.GenData(t, 2)}
@@ -323,7 +335,7 @@ func RunC11(env *sim.Env) {
 		n := t.Range(2, 12)
 		for i := 0; i < n; i++ {
 			var o op
-			switch t.Weighted(6, 2, 3, 2, 3, 2, 1, 1, 1, 2, 1, 2) {
+			switch t.Weighted(6, 2, 3, 2, 3, 2, 1, 1, 1, 2, 1, 2, 2, 1) {
 			case 0:
 				k := stableKeys[t.Choose(len(stableKeys))]
 				parts := strings.Split(k, "|")
@@ -362,6 +374,11 @@ func RunC11(env *sim.Env) {
 				o = op{kind: opExecVolatile, tmpl: fmt.Sprintf("/v%d.jet", t.Choose(2))}
 			case 10:
 				o = op{kind: opExecDump, tmpl: dumpTmpl}
+			case 12:
+				o = op{kind: opExecRecursive, tmpl: recTmpl}
+			case 13:
+				// a template that other clients store and delete: may be missing, may be any stored version
+				o = op{kind: opExecVolatile, tmpl: "/x.jet"}
 			case 11:
 				k := stableKeys[t.Choose(len(stableKeys))]
 				o = op{kind: opGetOnly, tmpl: strings.Split(k, "|")[0]}
@@ -456,9 +473,25 @@ func RunC11(env *sim.Env) {
 			if got != want {
 				env.Violate("serial-results", "serial-mismatch:"+opNames[r.op.kind], "client %d: %s (data %d) differs from its alone-run.\nalone:      %s\nconcurrent: %s\nhistory: %s", r.client, r.op, r.op.data, sim.Q(strings.ReplaceAll(want, "\x00", " | err=")), sim.Q(strings.ReplaceAll(got, "\x00", " | err=")), strings.Join(hist, " "))
 			}
+		case opExecRecursive:
+			if got := norm(r.out) + "\x00" + norm(r.err); got != recExpected(recDepth)+"\x00" {
+				env.Violate("serial-results", "serial-mismatch:"+opNames[r.op.kind], "client %d: a template that includes itself %d levels deep rendered %s (error %q); alone it renders %s\nhistory: %s", r.client, recDepth, sim.Q(r.out), r.err, sim.Q(recExpected(recDepth)), strings.Join(hist, " "))
+			}
 		case opExecVolatile:
 			if r.err != "" {
 				continue // the file may legitimately be in a state a concurrent edit produced only later
+			}
+			if r.op.tmpl == "/x.jet" {
+				ok := false
+				for _, q := range all {
+					if q.op.kind == opLoaderSet && q.op.key == "/x.jet" && q.op.val == r.out && q.call < r.ret {
+						ok = true
+					}
+				}
+				if !ok {
+					env.Violate("serial-results", "torn-version", "client %d: %s rendered %s, which nobody had stored when it returned\nhistory: %s", r.client, r.op, sim.Q(r.out), strings.Join(hist, " "))
+				}
+				continue
 			}
 			for _, m := range reVer.FindAllStringSubmatch(r.out, -1) {
 				if !versionWritten(m[0], r.ret) {
@@ -516,6 +549,19 @@ func runOp(s *simrt.Sched, set *jet.Set, mem *jet.InMemLoader, w *world, c int, 
 		}
 	}
 	switch o.kind {
+	case opExecRecursive:
+		guard(func() {
+			tm, err := set.GetTemplate(o.tmpl)
+			if err != nil {
+				r.err = "GetTemplate: " + err.Error()
+				return
+			}
+			wr := &yieldWriter{s: s}
+			if err := tm.Execute(wr, vars(w.datas[0], nil), recDepth); err != nil {
+				r.err = err.Error()
+			}
+			r.out = string(wr.buf)
+		})
 	case opGetExec, opExecGlobals, opExecVolatile, opExecDump, opGetOnly:
 		guard(func() {
 			tm, err := set.GetTemplate(o.tmpl)
